@@ -42,6 +42,13 @@ def execute(case):
             obj.transpose(-2)
             if kind == "bar":
                 line["kin"] = kname(obj.key_signature)
+        if kind == "seq" and idx % 6 == 2:
+            # history: the sequence was transposed before (by nothing / a semitone and back) and a passage reaching both limits
+            # of the playable range was appended since (concatenate); the judged call starts from what it holds now
+            obj.transpose(0) if idx % 4 < 2 else (obj.transpose(1), obj.transpose(-1))
+            tail = P.seq_from_rel([P.on(-1, 0, 107, 70), P.wait(2), P.off(-1, 0, 107), P.on(-1, 0, 22, 70), P.wait(2), P.off(-1, 0, 22),
+                                   P.on(-1, 0, 108, 70), P.on(-1, 0, 21, 70), P.wait(3), P.off(-1, 0, 108), P.off(-1, 0, 21)])
+            obj.concatenate([tail])
         line["pre"] = P.views(target)
         flag = obj.transpose(i)
         line["flag"] = bool(flag)
